@@ -162,7 +162,7 @@ Section Inv.
       destruct (nth_upd_cases _ _ _ _ _ Ha) as [(-> & -> & _)|(Hna & Ha')];
         destruct (nth_upd_cases _ _ _ _ _ Hb) as [(E & -> & _)|(Hnb & Hb')]; try congruence.
       + rewrite Fme in Heq. exact (Iids _ _ _ _ Hi Hb' Heq).
-      + rewrite Fme in Heq. symmetry. apply (Iids _ _ _ _ Hi Ha'). congruence.
+      + subst b. rewrite Fme in Heq. symmetry. apply (Iids _ _ _ _ Hi Ha'). congruence.
       + exact (Iids _ _ _ _ Ha' Hb' Heq).
     - (* free *)
       intros Hexp Hcl a ta Ha. specialize (Hexp0 Hexp).
@@ -355,8 +355,10 @@ Section Inv.
   Qed.
 
   (* a code that is dead when the callers start never yields a mapping, whatever the schedule *)
+  Definition quiet (t : lo) : Prop := fresh t \/ (l_kind t = KTick /\ forall m, l_pc t <> PDone (ROk m)).
+
   Definition DeadInv (s : st sh lo) : Prop :=
-    dead (by_code (fst s)) (expired (fst s)) = true /\ mains (fst s) = [] /\ forall t, In t (snd s) -> fresh t \/ l_kind t = KTick.
+    dead (by_code (fst s)) (expired (fst s)) = true /\ mains (fst s) = [] /\ forall t, In t (snd s) -> quiet t.
 
   Lemma in_upd_nth {A} i (x : A) l y : In y (upd_nth i x l) -> y = x \/ In y l.
   Proof.
@@ -367,55 +369,99 @@ Section Inv.
 
   Lemma dead_step s i : DeadInv s -> DeadInv (sstep s i).
   Proof.
-    intros (Hd & Hm & Hf). unfold sys_step. destruct (nth_error (snd s) i) as [t|] eqn:Hi; [|tauto].
+    intros (Hd & Hm & Hf). unfold sys_step. destruct (nth_error (snd s) i) as [t|] eqn:Hi; [|repeat split; assumption].
     destruct (step t (fst s)) as [t' s'] eqn:Hst. cbn [fst snd].
     assert (Ht := Hf t (nth_error_In _ _ Hi)).
-    assert (Goal : dead (by_code s') (expired s') = true /\ mains s' = [] /\ (fresh t' \/ l_kind t' = KTick)).
+    assert (Goal : dead (by_code s') (expired s') = true /\ mains s' = [] /\ quiet t').
     { unfold tstep in Hst. destruct (l_kind t) as [l la ok| |] eqn:Hk.
-      - destruct Ht as [[Hp|[e Hp]]|Ht]; [| |discriminate].
+      - destruct Ht as [[Hp|[e Hp]]|[Ht _]]; [| |congruence].
         + destruct (dead_at_get_returns_error t (fst s) l la ok Hk Hp Hd) as [Es [e He]].
-          unfold tstep in Es, He. rewrite Hk, Hst in Es, He. cbn in Es, He. subst s'.
-          repeat split; auto. left. right. exists e. exact He.
-        + unfold act_step in Hst. rewrite Hp in Hst. inversion Hst; subst. repeat split; auto. left. right. eauto.
-      - destruct Ht as [[Hp|[e Hp]]|Ht]; [| |discriminate].
+          unfold tstep in Es, He. rewrite Hk, Hst in Es, He. cbn [fst snd] in Es, He. subst s'.
+          split; [exact Hd|]. split; [exact Hm|]. left. right. exists e. exact He.
+        + unfold act_step in Hst. rewrite Hp in Hst. inversion Hst; subst.
+          split; [exact Hd|]. split; [exact Hm|]. left. right. exists e. exact Hp.
+      - destruct Ht as [[Hp|[e Hp]]|[Ht _]]; [| |congruence].
         + unfold rev_step in Hst. rewrite Hp in Hst. unfold dead in Hd.
           destruct (by_code (fst s)) as [r|] eqn:Eb.
-          * destruct (c_act r) eqn:Ea; [inversion Hst; subst; rewrite Eb; cbn; rewrite Ea, orb_true_r; repeat split; auto; left; right; eauto|].
-            destruct (c_rev r) eqn:Er; [inversion Hst; subst; rewrite Eb; cbn; rewrite Er; repeat split; auto; left; right; eauto|].
-            cbn in Hd. rewrite Hd in Hst. cbn in Hst. inversion Hst; subst. rewrite Eb. cbn. rewrite Ea, Er, Hd.
-            repeat split; auto. left. right. eauto.
-          * inversion Hst; subst. rewrite Eb. repeat split; auto. left. right. eauto.
-        + unfold rev_step in Hst. rewrite Hp in Hst. inversion Hst; subst. repeat split; auto. left. right. eauto.
-      - destruct (l_pc t); inversion Hst; subst; cbn; repeat split; auto. }
-    destruct Goal as (G1 & G2 & G3). repeat split; auto.
-    intros x Hx. destruct (in_upd_nth _ _ _ _ Hx) as [->|Hx']; auto.
+          * destruct (c_act r) eqn:Ea.
+            { inversion Hst; subst. rewrite Eb. cbn [dead]. rewrite Ea, orb_true_r. cbn.
+              split; [reflexivity|]. split; [exact Hm|]. left. right. eexists. reflexivity. }
+            destruct (c_rev r) eqn:Er.
+            { inversion Hst; subst. rewrite Eb. cbn [dead]. rewrite Er. cbn.
+              split; [reflexivity|]. split; [exact Hm|]. left. right. eexists. reflexivity. }
+            cbn in Hd. rewrite Hd in Hst. cbn in Hst. inversion Hst; subst. rewrite Eb. cbn [dead]. rewrite Ea, Er, Hd. cbn.
+            split; [reflexivity|]. split; [exact Hm|]. left. right. eexists. reflexivity.
+          * inversion Hst; subst. rewrite Eb. cbn [dead].
+            split; [reflexivity|]. split; [exact Hm|]. left. right. eexists. reflexivity.
+        + unfold rev_step in Hst. rewrite Hp in Hst. inversion Hst; subst.
+          split; [exact Hd|]. split; [exact Hm|]. left. right. exists e. exact Hp.
+      - assert (Q : forall m, l_pc t <> PDone (ROk m)).
+        { destruct Ht as [[Hp|[e Hp]]|[_ Hq]]; [| |exact Hq]; intros m; rewrite Hp; discriminate. }
+        destruct (l_pc t) as [| | | | | | | | | | | | | | e0 | | r] eqn:Hp; inversion Hst; subst; cbn [dead by_code expired mains set_expired];
+          (split; [try reflexivity; exact Hd|]); (split; [exact Hm|]); right;
+          try (split; [cbn; exact Hk|cbn; intros m; discriminate]).
+        split; [exact Hk|]. rewrite Hp. exact Q. }
+    destruct Goal as (G1 & G2 & G3). split; [exact G1|]. split; [exact G2|].
+    intros x Hx. destruct (in_upd_nth _ _ _ _ Hx) as [->|Hx']; [exact G3|exact (Hf x Hx')].
   Qed.
 
   Theorem dead_code_never_creates s sched :
-    dead (by_code (fst s)) (expired (fst s)) = true -> mains (fst s) = [] -> (forall t, In t (snd s) -> fresh t \/ l_kind t = KTick) ->
+    dead (by_code (fst s)) (expired (fst s)) = true -> mains (fst s) = [] -> (forall t, In t (snd s) -> quiet t) ->
     mains (fst (srun s sched)) = [] /\
     forall t m, In t (snd (srun s sched)) -> l_pc t <> PDone (ROk m).
   Proof.
     intros Hd Hm Hf.
     assert (HI : DeadInv (srun s sched)).
-    { apply (inv_all_schedules sh lo (tstep Current P) DeadInv); [intros s0 i; apply dead_step | repeat split; auto]. }
+    { apply (inv_all_schedules sh lo (tstep Current P) DeadInv); [intros s0 i; apply dead_step | split; [exact Hd|split; [exact Hm|exact Hf]]]. }
     destruct HI as (_ & Hm' & Hf'). split; [exact Hm'|].
-    intros t m Ht Hpc. destruct (Hf' t Ht) as [[Hp|[e Hp]]|Hk]; try congruence.
-    (* a tick thread never returns ROk: it is either at PGet-like pcs or PDone RTick; use Inv-free argument *)
-    revert Hpc. clear - Hk Ht Hf Hd Hm. intros Hpc.
-    (* ticks: prove separately below *)
-    exfalso. revert t m Ht Hk Hpc.
-    apply (inv_all_schedules sh lo (tstep Current P)
-             (fun s => forall t m, In t (snd s) -> l_kind t = KTick -> l_pc t = PDone (ROk m) -> False)).
-    - intros s0 i HI t m. unfold sys_step. destruct (nth_error (snd s0) i) as [t0|] eqn:Hi; [|apply HI].
-      destruct (step t0 (fst s0)) as [t' s'] eqn:Hst. cbn [snd]. intros Hin Hk Hpc.
-      destruct (in_upd_nth _ _ _ _ Hin) as [->|Hin']; [|exact (HI t m Hin' Hk Hpc)].
-      destruct (step_facts P t0 (fst s0) t' s' Hst) as (_ & Fkind & _ & _ & _ & _ & _ & _ & Fok).
-      destruct (Fok m Hpc) as [Hold|(_ & Hw)].
-      + apply (HI t0 m (nth_error_In _ _ Hi)); congruence.
-      + unfold can_win in Hw. rewrite Hk in Hw. discriminate.
-    - intros t m Ht Hk Hpc. destruct (Hf t Ht) as [[Hp|[e Hp]]|_]; try congruence.
-      (* a fresh-or-tick initial thread: tick threads start anywhere but not at ROk — required by hypothesis *)
-      all: fail.
-  Abort.
+    intros t m Ht Hpc. destruct (Hf' t Ht) as [[Hp|[e Hp]]|[_ Hq]]; [congruence|congruence|exact (Hq m Hpc)].
+  Qed.
 End Inv.
+
+(* ---------- concrete runs: witnesses against the pinned code, non-vacuity for the repaired code ---------- *)
+
+Definition P0 : params := {| p_tgt := 77; p_taddr := 0; p_qmax := 50; p_pre := fun _ => 0 |}.
+Definition two_activators : list lo :=
+  [init_lo 0 (KAct 101 0 true) false None; init_lo 1 (KAct 102 1 true) false None].
+Definition s0 (ts : list lo) : st sh lo := (init_sh (Some fresh_code), ts).
+Definition oks (ts : list lo) : nat :=
+  length (filter (fun t => match l_pc t with PDone (ROk _) => true | _ => false end) ts).
+Definition errs (ts : list lo) : nat :=
+  length (filter (fun t => match l_pc t with PDone (RErr _) => true | _ => false end) ts).
+Definition finished (ts : list lo) : bool :=
+  forallb (fun t => match l_pc t with PDone _ => true | _ => false end) ts.
+Definition drain (k : nat) : list nat := repeat 0 k ++ repeat 1 k.
+
+(* the tree as found: both callers read the code before either writes it -> two successes, two mappings *)
+Lemma pinned_overlapping_activations_refuted :
+  exists sched,
+    let s := run sh lo (tstep Pinned P0) (s0 two_activators) sched in
+    finished (snd s) = true /\ oks (snd s) = 2 /\ length (mains (fst s)) = 2.
+Proof. exists ([0; 1] ++ drain 12). vm_compute. repeat split. Qed.
+
+(* the tree as found: the global-list append of a lone caller fails -> error returned, main record left behind *)
+Lemma pinned_failed_append_leaves_record_refuted :
+  exists f,
+    let s := run sh lo (tstep Pinned P0) (s0 [init_lo 0 (KAct 101 0 true) false (Some f)]) (repeat 0 12) in
+    finished (snd s) = true /\ errs (snd s) = 1 /\ length (mains (fst s)) = 1.
+Proof. exists 1. vm_compute. repeat split. Qed.
+
+(* same schedule / same fault on the repaired code *)
+Lemma current_same_schedule_one_success :
+  let s := run sh lo (tstep Current P0) (s0 two_activators) ([0; 1] ++ drain 12) in
+  finished (snd s) = true /\ oks (snd s) = 1 /\ errs (snd s) = 1 /\ length (mains (fst s)) = 1.
+Proof. vm_compute. repeat split. Qed.
+
+Lemma current_failed_append_leaves_nothing :
+  let s := run sh lo (tstep Current P0) (s0 [init_lo 0 (KAct 101 0 true) false (Some 2)]) (repeat 0 12) in
+  finished (snd s) = true /\ errs (snd s) = 1 /\ mains (fst s) = [] /\ claim (fst s) = false.
+Proof. vm_compute. repeat split. Qed.
+
+Lemma premises_satisfiable : start_ok (s0 two_activators).
+Proof.
+  split; [reflexivity|]. split.
+  - intros t [<-|[<-|[]]]; left; reflexivity.
+  - intros [|[|i]] [|[|j]] ti tj Hi Hj He; cbn in Hi, Hj; try reflexivity;
+      try (destruct i; discriminate); try (destruct j; discriminate);
+      inversion Hi; inversion Hj; subst; cbn in He; discriminate.
+Qed.
